@@ -22,14 +22,127 @@ def elemLine1 (P : G1) : String :=
   let rt := match unmarshalG1 enc with
     | .ok Q => Q == P && marshalG1 Q == enc
     | _ => false
-  s!"ok {toHex enc} rt={b2s rt}"
+  s!"ok {toHex enc} rt={b2s rt} st={formOf1 (unmarshalG1Rep ⟨0, 0, 0, 0⟩ enc).1}"
 
 def elemLine2 (P : G2) : String :=
   let enc := marshalG2 P
   let rt := match unmarshalG2 enc with
     | .ok Q => Q == P && marshalG2 Q == enc
     | _ => false
-  s!"ok {toHex enc} rt={b2s rt}"
+  s!"ok {toHex enc} rt={b2s rt} st={formOf2 (unmarshalG2Rep ⟨(0, 0), (0, 0), (0, 0), (0, 0)⟩ enc).1}"
+
+/-- a receiver full of junk: the representation-level decoders are run on it, so a decoder that kept a field of
+the receiver would show (`st=x`) -/
+def junk1 : Rep1 := ⟨7, 7, 7, 7⟩
+def junk2 : Rep2 := ⟨(7, 7), (7, 7), (7, 7), (7, 7)⟩
+
+def sameOutcome (a : Out α) (b : Out Unit) : Bool :=
+  match a, b with
+  | .ok _, .ok _ => true
+  | .err e, .err e' => e == e'
+  | .panic _, .panic _ => true
+  | _, _ => false
+
+/-- a decode of G1 bytes: outcome and re-encoding by the affine model, form of the object left in the receiver by
+the representation-level model (`st=`), and what computing with the decoded element gives (`u=` enc(3·Q + B)) -/
+def decLine1 (b : Bytes) : String :=
+  let o := unmarshalG1 b
+  let r := unmarshalG1Rep junk1 b
+  if !sameOutcome o r.2 then "model-inconsistent" else
+  match o with
+  | .ok P => s!"ok {toHex (marshalG1 P)} st={formOf1 r.1} u={toHex (marshalG1 (G1.add (G1.smul 3 P) g1gen))}"
+  | o => showDec marshalG1 o
+
+def decLine2 (b : Bytes) : String :=
+  let o := unmarshalG2 b
+  let r := unmarshalG2Rep junk2 b
+  if !sameOutcome o r.2 then "model-inconsistent" else
+  match o with
+  | .ok P => s!"ok {toHex (marshalG2 P)} st={formOf2 r.1} u={toHex (marshalG2 (G2.add (G2.smul 3 P) g2gen))}"
+  | o => showDec marshalG2 o
+
+def decLineT (b : Bytes) : String :=
+  let o := unmarshalGT b
+  let r := unmarshalGTRep [] b
+  if !sameOutcome o r.2 then "model-inconsistent" else showDec marshalGT o
+
+def fromLine1 (b : Bytes) : String :=
+  let (n, o) := unmarshalFrom 64 unmarshalG1 b
+  match o with
+  | .ok _ => s!"n={n} {decLine1 (b.take n)}"
+  | o => s!"n={n} {showDec marshalG1 o}"
+
+def fromLine2 (b : Bytes) : String :=
+  let (n, o) := unmarshalFromG2 b
+  match o with
+  | .ok _ => s!"n={n} {decLine2 (b.take n)}"
+  | o => s!"n={n} {showDec marshalG2 o}"
+
+def fromLineT (b : Bytes) : String :=
+  let (n, o) := unmarshalFrom 384 unmarshalGT b
+  s!"n={n} {showDec marshalGT o}"
+
+/-! expressions of the `rep` / `par` cases (reverse Polish, see go/props/c11/chain.go) -/
+
+def evalTok1 (st : List G1) (tok : String) : Option (List G1) :=
+  let arg := (tok.drop 1).toString.toNat?
+  match tok.toList.head?, st with
+  | some 'b', st => some (g1gen :: st)
+  | some 'o', st => some (.inf :: st)
+  | some 'k', st => arg.map fun k => g1of k :: st
+  | some '+', b :: a :: st => some (G1.add a b :: st)
+  | some '-', b :: a :: st => some (G1.add a (G1.neg b) :: st)
+  | some 'n', a :: st => some (G1.neg a :: st)
+  | some 'd', a :: st => some (G1.add a a :: st)
+  | some 'm', a :: st => arg.map fun k => G1.smul (sc k) a :: st
+  | some 'c', a :: st => match unmarshalG1 (marshalG1 a) with   -- Clone = decode(encode)
+    | .ok q => some (q :: st)
+    | _ => none
+  | some 's', a :: st => some (a :: st)
+  | _, _ => none
+
+def evalTok2 (st : List G2) (tok : String) : Option (List G2) :=
+  let arg := (tok.drop 1).toString.toNat?
+  match tok.toList.head?, st with
+  | some 'b', st => some (g2gen :: st)
+  | some 'o', st => some (.inf :: st)
+  | some 'k', st => arg.map fun k => g2of k :: st
+  | some '+', b :: a :: st => some (G2.add a b :: st)
+  | some '-', b :: a :: st => some (G2.add a (G2.neg b) :: st)
+  | some 'n', a :: st => some (G2.neg a :: st)
+  | some 'd', a :: st => some (G2.add a a :: st)
+  | some 'm', a :: st => arg.map fun k => G2.smul (sc k) a :: st
+  | some 'c', a :: st => match unmarshalG2 (marshalG2 a) with
+    | .ok q => some (q :: st)
+    | _ => none
+  | some 's', a :: st => some (a :: st)
+  | _, _ => none
+
+/-- GT elements are decided in the dlog representation: e(aG1, bG2) = gT^(ab), Base = gT -/
+def evalTokT (st : List Nat) (tok : String) : Option (List Nat) :=
+  let body := (tok.drop 1).toString
+  match tok.toList.head?, st with
+  | some 'b', st => some (1 :: st)
+  | some 'o', st => some (0 :: st)
+  | some 'k', st => body.toNat?.map fun k => sc k :: st
+  | some 'p', st => match body.splitOn ":" with
+    | [a, b] => match a.toNat?, b.toNat? with
+      | some a, some b => some ((sc a * sc b) % r :: st)
+      | _, _ => none
+    | _ => none
+  | some '+', b :: a :: st => some ((a + b) % r :: st)
+  | some '-', b :: a :: st => some ((a + (r - b % r)) % r :: st)
+  | some 'n', a :: st => some ((r - a % r) % r :: st)
+  | some 'd', a :: st => some ((a + a) % r :: st)
+  | some 'm', a :: st => body.toNat?.map fun k => (a * sc k) % r :: st
+  | some 'c', a :: st => some (a :: st)
+  | some 's', a :: st => some (a :: st)
+  | _, _ => none
+
+def evalExpr (f : List α → String → Option (List α)) (e : String) : Option α :=
+  match (e.splitOn ",").foldl (fun st tok => st.bind fun s => f s tok) (some []) with
+  | some [v] => some v
+  | _ => none
 
 def strmLine (enc tail : Bytes) (res : Nat × String) : String :=
   let total := enc.length + tail.length
@@ -38,13 +151,13 @@ def strmLine (enc tail : Bytes) (res : Nat × String) : String :=
 def step (line : String) : String :=
   match words line with
   | ["g1dec", hs] => match ofHex hs with
-    | some b => showDec marshalG1 (unmarshalG1 b)
+    | some b => decLine1 b
     | none => "bad-op"
   | ["g2dec", hs] => match ofHex hs with
-    | some b => showDec marshalG2 (unmarshalG2 b)
+    | some b => decLine2 b
     | none => "bad-op"
   | ["gtdec", hs] => match ofHex hs with
-    | some b => showDec marshalGT (unmarshalGT b)
+    | some b => decLineT b
     | none => "bad-op"
   | ["scdec", hs] => match ofHex hs with
     | some b => match unmarshalScalar b with
@@ -66,13 +179,13 @@ def step (line : String) : String :=
     | none => "bad-op"
   -- the repaired decoders do not look at the receiver: same answer as a fresh decode
   | ["g1into", _, hs] => match ofHex hs with
-    | some b => showDec marshalG1 (unmarshalG1 b)
+    | some b => decLine1 b
     | none => "bad-op"
   | ["g2into", _, hs] => match ofHex hs with
-    | some b => showDec marshalG2 (unmarshalG2 b)
+    | some b => decLine2 b
     | none => "bad-op"
   | ["gtinto", _, hs] => match ofHex hs with
-    | some b => showDec marshalGT (unmarshalGT b)
+    | some b => decLineT b
     | none => "bad-op"
   | ["g1mul", ks] => match ks.toNat? with
     | some k => elemLine1 (g1of k)
@@ -117,14 +230,14 @@ def step (line : String) : String :=
       match st.toList.head?, ofHex body with
       | some 'd', some b =>
         some (match g with
-          | "g1" => showDec marshalG1 (unmarshalG1 b)
-          | "g2" => showDec marshalG2 (unmarshalG2 b)
-          | _ => showDec marshalGT (unmarshalGT b))
+          | "g1" => decLine1 b
+          | "g2" => decLine2 b
+          | _ => decLineT b)
       | some 'f', some b =>
         some (match g with
-          | "g1" => let (n, o) := unmarshalFrom 64 unmarshalG1 b; s!"n={n} {showDec marshalG1 o}"
-          | "g2" => let (n, o) := unmarshalFromG2 b; s!"n={n} {showDec marshalG2 o}"
-          | _ => let (n, o) := unmarshalFrom 384 unmarshalGT b; s!"n={n} {showDec marshalGT o}")
+          | "g1" => fromLine1 b
+          | "g2" => fromLine2 b
+          | _ => fromLineT b)
       | _, _ => none
     String.intercalate ";" outs
   -- GT elements are pairing values e(aG1,bG2) = gT^(ab): decided in the dlog representation
@@ -137,22 +250,50 @@ def step (line : String) : String :=
     | some k, some tail =>
       let enc := marshalG1 (g1of k)
       let (n, o) := unmarshalFrom 64 unmarshalG1 (enc ++ tail)
-      strmLine enc tail (n, showDec marshalG1 o)
+      strmLine enc tail (n, match o with
+        | .ok _ => decLine1 ((enc ++ tail).take n)
+        | o => showDec marshalG1 o)
     | _, _ => "bad-op"
   | ["g2strm", ks, ts] => match ks.toNat?, ofHex ts with
     | some k, some tail =>
       let enc := marshalG2 (g2of k)
       let (n, o) := unmarshalFromG2 (enc ++ tail)
-      strmLine enc tail (n, showDec marshalG2 o)
+      strmLine enc tail (n, match o with
+        | .ok _ => decLine2 ((enc ++ tail).take n)
+        | o => showDec marshalG2 o)
     | _, _ => "bad-op"
   | ["g1from", hs] => match ofHex hs with
-    | some b => let (n, o) := unmarshalFrom 64 unmarshalG1 b; s!"n={n} {showDec marshalG1 o}"
+    | some b => fromLine1 b
     | none => "bad-op"
   | ["g2from", hs] => match ofHex hs with
-    | some b => let (n, o) := unmarshalFromG2 b; s!"n={n} {showDec marshalG2 o}"
+    | some b => fromLine2 b
     | none => "bad-op"
   | ["gtfrom", hs] => match ofHex hs with
-    | some b => let (n, o) := unmarshalFrom 384 unmarshalGT b; s!"n={n} {showDec marshalGT o}"
+    | some b => fromLineT b
+    | none => "bad-op"
+  -- two representatives: decided on the elements (the affine model has one value per element)
+  | ["g1rep", e1, e2] => match evalExpr evalTok1 e1, evalExpr evalTok1 e2 with
+    | some P, some Q =>
+      let e := b2s (equalG1 P Q)
+      s!"eq={e} qe={b2s (equalG1 Q P)} enc={b2s (marshalG1 P == marshalG1 Q)} e1={toHex (marshalG1 P)} e2={toHex (marshalG1 Q)}"
+    | _, _ => "bad-op"
+  | ["g2rep", e1, e2] => match evalExpr evalTok2 e1, evalExpr evalTok2 e2 with
+    | some P, some Q =>
+      let e := b2s (equalG2 P Q)
+      s!"eq={e} qe={b2s (equalG2 Q P)} enc={b2s (marshalG2 P == marshalG2 Q)} e1={toHex (marshalG2 P)} e2={toHex (marshalG2 Q)}"
+    | _, _ => "bad-op"
+  | ["gtrep", e1, e2] => match evalExpr evalTokT e1, evalExpr evalTokT e2 with
+    | some a, some b => let e := b2s (a == b); s!"eq={e} qe={e} enc={e}"
+    | _, _ => "bad-op"
+  -- one shared object, n goroutines: every answer is the element's (the model is pure)
+  | ["par", "g1", e, _, _] => match evalExpr evalTok1 e with
+    | some P => s!"enc={toHex (marshalG1 P)} bad=0"
+    | none => "bad-op"
+  | ["par", "g2", e, _, _] => match evalExpr evalTok2 e with
+    | some P => s!"enc={toHex (marshalG2 P)} bad=0"
+    | none => "bad-op"
+  | ["par", "gt", e, _, _] => match evalExpr evalTokT e with
+    | some _ => "bad=0"
     | none => "bad-op"
   | _ => "bad-op"
 
